@@ -16,10 +16,12 @@ def obligations(tier):
     nch = 2 if tier == 'quick' else 3
     pm = 10 if tier == 'quick' else 20
     o.append(Obl('O1_raw_framing', 'c04_raw.c', units=['raw.c'], stubs=['log_stub.c', 'membk.c', 'crcfun.c'],
-                 defines=['MODE_FRAMING=1', 'NCH=%d' % nch, 'PMAX=%d' % pm, 'MEMBK_SIZE=256'],
-                 unwind=pm + 40, timeout=900, backend=PORTFOLIO,
-                 desc='append %d chunks (symbolic payload length 0..%d incl. zero-length) + close; independent forward decode' % (nch, pm),
-                 bound='%d chunks, payload <= %d bytes' % (nch, pm)))
+                 defines=['MODE_FRAMING=1', 'MEMBK_SIZE=256'],
+                 ladder=([('NCH2_P10', ['NCH=2', 'PMAX=10'], None, None)] if tier == 'quick' else
+                         [('NCH3_P10', ['NCH=3', 'PMAX=10'], None, None), ('NCH2_P20', ['NCH=2', 'PMAX=20'], None, None), ('NCH2_P10', ['NCH=2', 'PMAX=10'], None, None)]),
+                 unwind=pm + 40, timeout=900 if tier == 'quick' else 2400, backend=PORTFOLIO, mem_gb=24,
+                 desc='append NCH chunks (symbolic payload length 0..PMAX incl. zero-length) + close; independent forward decode',
+                 bound='chunk count and max payload per rung label'))
     o.append(ts_obl('O4_ts_levels_anno_D2_N5', False, 2, 5, timeout=900 if tier == 'quick' else 2400))
     if tier == 'thorough':
         o.append(ts_obl('O4_ts_levels_utc_D2_N7', True, 2, 7, timeout=3000, tiers=('thorough',)))
